@@ -40,12 +40,12 @@ ASSUMPTIONS = [
 ]
 TRUSTED = [
     'primitive table of harness/c19/translate.py (docstring; ~40 entries: Python/WebOb/Pyramid leaf semantics -> coq/Model/C19_base.v) and the translator itself (fail-closed, its output is type-checked by Coq and exercised by the correspondence run)',
-    'raise sites outside httpexceptions.py: argument expressions regenerated for router / static view (3 sites) / append-slash view (translate.SITES; control flow around them pinned, static_view.add_slash_redirect translated whole); predicate-mismatch, secured-view and CSRF-origin messages are computed by harness/c19/apps.py from formats read out of the source; a fail-closed scan of the whole package lists every function that builds an HTTP exception and demands a pin or translation for it',
-    'hand-written reference model coq/Model/C19.v (what the theorems are about); _no_escape, HTTPException.__str__, default_exceptionresponse_view, exception_response and the other raisers stay shape-pinned',
+    'raise sites outside httpexceptions.py: argument expressions regenerated for router / static view (3 sites) / append-slash view (translate.SITES; control flow around them pinned, static_view.add_slash_redirect translated whole); predicate-mismatch, secured-view and CSRF-origin messages are built in Coq (msite_gen with the formats regenerated from the source, msite_ref with reference formats) from configuration data / the last Origin token supplied by the harness; the functions around them stay pinned; a fail-closed scan of the whole package lists every function that builds an HTTP exception and demands a pin or translation for it',
+    'hand-written reference model coq/Model/C19.v (what the theorems are about); HTTPException.__str__, default_exceptionresponse_view, exception_response and the other raisers stay shape-pinned',
     'string.Template.substitute, webob.html_escape (html.escape + xmlcharrefreplace), json.dumps(ensure_ascii), str.encode("utf-8"): modelled, validated by correspondence (code-point sweeps), not verified',
     'WebOb Response: constructor keywords content_type= / charset= / location=, the content_type setter (value + default charset for text/*, text/html and XML types, earlier parameters dropped), charset = None, header list: modelled in coq/Model/C19_base.v (kw_ctype, kw_charset, default_charset, texty), validated by correspondence; Accept negotiation: oracle',
 ]
-TECHNIQUE = ('Coq proof about a hand-written Gallina reference model; the control flow of HTTPException.__init__, '
+TECHNIQUE = ('Coq proof about a hand-written Gallina reference model; the control flow of _no_escape, HTTPException.__init__, '
              '_HTTPMove.__init__, HTTPForbidden.__init__, _json_formatter, prepare and __call__ is REGENERATED from the source on every run by a '
              'fail-closed ast -> Gallina translator (harness/c19/translate.py) and proved equal to the reference model, as are '
              'the argument expressions of the raise sites in router.py, static.py and view.py; '
@@ -65,7 +65,8 @@ LEVEL_TEXT = ('Machine-checked, for all texts, classes of the regenerated table,
               'The expressions by which the router, the static view and the append-slash Not Found view build their '
               'exceptions are regenerated and proved equal to a reference in which a request property sits behind fixed text and '
               'no body template is passed; a Content-Type written on the object before the call (subscriber, callback, tween) '
-              'never reaches the client of a rendering class. '
+              'never reaches the client of a rendering class; the predicate-mismatch / secured-view / CSRF-origin messages built '
+              'with the regenerated formats equal those built with the reference formats; an empty comment renders as no comment. '
               'Tie to the code: the translator (control flow mechanical, leaves through a primitive table), '
               'regenerated literals/class table, shape pins only for untranslated helpers, and a differential run of the '
               'extracted regenerated program against the real exceptions, Router and static/secured/predicated views.')
@@ -537,6 +538,15 @@ def to_wire(case):
         menv = apps.environ_of(case) if case['via'] == 'app' else []
         return [site, [req.url, req.path, req.path_info, req.path_url, req.query_string], menv,
                 oracle_offers('' if acc is None else acc)]
+    if case['via'] == 'app' and case['kind'] in MSITE_OF_KIND:
+        # message sites: Coq builds the detail from the configuration data / header with the formats REGENERATED from the
+        # source (msite_gen: model) and with the reference formats (msite_ref: specification)
+        k = case['kind']
+        name = case['path'][1:]
+        args = ([name] if k == 'pm-multi' else [dict(apps.PS_NAMES)[name], 'request_param c19zz'] if k == 'pm-single'
+                else [dict(apps.FB_NAMES)[name]] if k == 'forbidden' else [case['origin'].split(' ')[-1]])
+        acc = case['accept']
+        return [MSITE_OF_KIND[k], args, apps.environ_of(case), oracle_offers('' if acc is None else acc), 0]
     if case['via'] == 'app':
         ex = apps.expected(case, _table()['formats'])
         cls, detail, loc = ex[:3]
@@ -555,6 +565,9 @@ def to_wire(case):
 
 SITE_OF_KIND = {'static-missing': 'static_missing', 'static-oob': 'static_oob', 'static-slash': 'static_slash',
                 'slash-redirect': 'append_slash', 'slash-miss': 'router', 'sub-notfound': 'router'}
+
+
+MSITE_OF_KIND = {'pm-multi': 'pm_multi', 'pm-single': 'pm_single', 'forbidden': 'forbidden', 'csrf-origin': 'csrf_origin'}
 
 
 def _site_of(case):
